@@ -146,4 +146,146 @@ theorem rebuild_if2_eq (r : Rule) (b : Info) (year : Int) :
       · simp only [h1, if_false, false_and, Bool.false_eq_true, ok_bind]
         exact tail v
 
+/-! ### section 7: the easter mask -/
+
+theorem eastermaskOf_some (r : Rule) (year : Int) (b : Info) (e : Int) (es : List Int) (h : r.byeaster = some (e :: es)) :
+    eastermaskOf r year b = okSome (buildEastermask (e :: es) year b.yearlen b.yearordinal) := by
+  unfold eastermaskOf okSome
+  rw [h]
+  dsimp only
+  split <;> simp only [*]
+
+theorem rebuild_if7_eq (r : Rule) (em : Option (List Int)) (b : Info) (year : Int) :
+    Gen.rebuild_if7 r em b.yearlen b.yearordinal year =
+      if truthy r.byeaster = true then eastermaskOf r year b else .ok em := by
+  match hb : r.byeaster with
+  | none => simp [Gen.rebuild_if7, hb, truthy, pure, Except.pure]
+  | some [] => simp [Gen.rebuild_if7, hb, truthy, pure, Except.pure]
+  | some (e :: es) =>
+    rw [eastermaskOf_some r year b e es hb]
+    unfold Gen.rebuild_if7 buildEastermask
+    simp only [hb, truthy, if_true, RrPy.easterDate, RrPy.iterO, RrPy.repeatL, RrPy.mkDate, RrPy.toordinal, bind, pure,
+      Except.pure, ok_bind, rebuild_loop8_eq, okSome_bind]
+    cases Gen.easter year 3 with
+    | error err => rfl
+    | ok d =>
+      simp only [ok_bind]
+      by_cases hv : Cal.validDate d.1 d.2.1 d.2.2 = true
+      · simp only [hv, if_true, not_true_eq_false, if_false, ok_bind, bind_ok_id]
+      · have hv' : Cal.validDate d.1 d.2.1 d.2.2 = false := by simpa using hv
+        simp only [hv']
+        rfl
+
+/-! ### sections 4-6: the nth-weekday mask -/
+
+theorem rangeStep_eq (wdaymask : List Int) (nwl : List (Int × Int)) :
+    (fun (mask : List Int) (rg : List Int) =>
+      match rg with
+      | [first, last] => nwl.foldlM (markNth wdaymask first (last - 1)) mask
+      | _ => throw Py.PyErr.ValueError) = rangeStep wdaymask nwl := by
+  funext mask rg
+  unfold rangeStep
+  match rg with
+  | [] => rfl
+  | [_] => rfl
+  | [_, _] => rfl
+  | _ :: _ :: _ :: _ => rfl
+
+/-- the ranges the model's `buildNwdaymask` works on -/
+def nwRanges (r : Rule) (yearlen : Int) (mrange : List Int) (month : Int) : Py.R (List (List Int)) :=
+  if r.freq == 0 then
+    if truthy r.bymonth then
+      (r.bymonth.getD []).mapM (fun m => Py.slice mrange (some (m - 1)) (some (m + 1)) none)
+    else pure [[0, yearlen]]
+  else if r.freq == 1 then
+    (Py.slice mrange (some (month - 1)) (some (month + 1)) none).bind fun s => pure [s]
+  else pure []
+
+theorem buildNwdaymask_some (r : Rule) (yearlen : Int) (mrange wdaymask : List Int) (month : Int)
+    (nw0 : Int × Int) (nws : List (Int × Int)) (h : r.bynweekday = some (nw0 :: nws)) :
+    buildNwdaymask r yearlen mrange wdaymask month =
+      (nwRanges r yearlen mrange month).bind fun ranges =>
+        if ranges.isEmpty then .ok none
+        else okSome (ranges.foldlM (rangeStep wdaymask (nw0 :: nws)) (List.replicate yearlen.toNat 0)) := by
+  unfold buildNwdaymask nwRanges
+  rw [h]
+  simp only [bind, pure, Except.pure]
+  by_cases h0 : r.freq = 0
+  · by_cases hm : truthy r.bymonth = true
+    · simp only [h0, hm, beq_self_eq_true, if_true]
+      congr 1; funext ranges
+      by_cases he : ranges.isEmpty = true
+      · simp [he]
+      · simp only [he, Bool.false_eq_true, if_false, bind_okSome]
+        congr 2
+    · simp only [h0, hm, beq_self_eq_true, if_true, Bool.false_eq_true, if_false, ok_bind, List.isEmpty_cons, bind_okSome]
+      congr 2
+  · by_cases h1 : r.freq = 1
+    · have h01 : ¬ ((1 : Int) = 0) := by decide
+      simp only [h1, beq_iff_eq, h01, if_false, if_true, beq_self_eq_true]
+      cases Py.slice mrange (some (month - 1)) (some (month + 1)) none with
+      | error e => rfl
+      | ok s =>
+        simp only [ok_bind, List.isEmpty_cons, Bool.false_eq_true, if_false, bind_okSome]
+        congr 2
+    · simp [h0, h1]
+
+/-- what `month` holds after the nth-weekday block: `for month in rr._bymonth` REBINDS the parameter, so YEARLY rules
+    with BYMONTH and nth weekdays record the last BYMONTH member in `lastmonth` -/
+def nwMonth (r : Rule) (month : Int) : Int :=
+  if r.freq = 0 ∧ truthy r.bymonth = true then (r.bymonth.getD []).getLast?.getD month else month
+
+theorem rebuild_if4_eq (r : Rule) (month : Int) (mrange : List Int) (yearlen : Int) :
+    Gen.rebuild_if4 r month [] mrange yearlen =
+      (nwRanges r yearlen mrange month).bind fun rs => .ok (nwMonth r month, rs) := by
+  unfold Gen.rebuild_if4 nwRanges nwMonth
+  by_cases h0 : r.freq = 0
+  · match hm : r.bymonth with
+    | none => simp [h0, truthy, pure, Except.pure]
+    | some [] => simp [h0, truthy, pure, Except.pure]
+    | some (x :: xs) =>
+      simp only [h0, truthy, if_true, RrPy.iterO, bind, pure, Except.pure, ok_bind, rebuild_loop5_eq, beq_self_eq_true,
+        Option.getD_some, List.nil_append, and_self]
+      cases List.mapM (fun m => Py.slice mrange (some (m - 1)) (some (m + 1)) none) (x :: xs) <;> rfl
+  · by_cases h1 : r.freq = 1
+    · have h01 : ¬ ((1 : Int) = 0) := by decide
+      simp only [h1, h01, if_false, if_true, beq_iff_eq, beq_self_eq_true, false_and, bind, pure, Except.pure]
+      cases Py.slice mrange (some (month - 1)) (some (month + 1)) none <;> rfl
+    · simp [h0, h1, pure, Except.pure]
+
+theorem rebuild_if5_eq (r : Rule) (nwl : List (Int × Int)) (hn : r.bynweekday = some nwl) (ranges : List (List Int))
+    (wdaymask : List Int) (yearlen : Int) :
+    Gen.rebuild_if5 r ranges none wdaymask yearlen =
+      if ranges.isEmpty then .ok none
+      else okSome (ranges.foldlM (rangeStep wdaymask nwl) (List.replicate yearlen.toNat 0)) := by
+  unfold Gen.rebuild_if5
+  by_cases he : ranges.isEmpty = true
+  · simp [he, pure, Except.pure]
+  · simp only [he, Bool.not_eq_true, Bool.false_eq_true, if_false]
+    have he' : ranges.isEmpty = false := by simpa using he
+    simp only [he', if_true, RrPy.repeatL, bind, pure, Except.pure, rebuild_loop6_eq r nwl hn, bind_ok_id]
+
+/-- sections 4-6 on a fresh `_iterinfo`: the nth-weekday mask of the model, and the `month` recorded afterwards -/
+theorem rebuild_if6_fresh (r : Rule) (month year : Int) (mrange wdaymask : List Int) (yearlen : Int) :
+    Gen.rebuild_if6 r month none none mrange none wdaymask yearlen year =
+      (buildNwdaymask r yearlen mrange wdaymask month).bind fun nw =>
+        .ok (if truthy r.bynweekday = true then nwMonth r month else month, nw) := by
+  unfold Gen.rebuild_if6
+  match hn : r.bynweekday with
+  | none => simp [truthy, buildNwdaymask, hn, pure, Except.pure]
+  | some [] => simp [truthy, buildNwdaymask, hn, pure, Except.pure]
+  | some (nw0 :: nws) =>
+    rw [buildNwdaymask_some r yearlen mrange wdaymask month nw0 nws hn]
+    have hne : (some month ≠ (none : Option Int)) := by simp
+    simp only [truthy, hne, true_or, and_self, if_true, bind, pure, Except.pure, rebuild_if4_eq,
+      rebuild_if5_eq r (nw0 :: nws) hn]
+    cases nwRanges r yearlen mrange month with
+    | error e => rfl
+    | ok rs =>
+      simp only [ok_bind]
+      by_cases he : rs.isEmpty = true
+      · simp [he]
+      · simp only [he, Bool.false_eq_true, if_false]
+        cases List.foldlM (rangeStep wdaymask (nw0 :: nws)) (List.replicate yearlen.toNat 0) rs <;> rfl
+
 end RRuleGen
